@@ -19,7 +19,23 @@ Definition verdict_kinds (v : bind_verdict) : list N :=
    - ENewAlloc key app node: a normal / reserved / placeholder allocation
    - ERelease ph app PLACEHOLDER_REPLACED: a swap decision; when the real ask was bound on another node
      than the placeholder's it is checked like a normal binding *)
-Definition c01_bind_step (deny : list (N * N)) (pre : ostate) (st : ostep) : list N :=
+(* A reservation the same scheduling cycle gave up before it bound (wait timeout crossed in tryReservedAllocate, the
+   preemptor's cancellation of an aged reservation, cancelReservations for a required-node ask) does not block the
+   node: the pre-state is judged without the reservations of that node that are gone in the post-state *)
+Definition drop_cancelled (evs : list oevent) (pre post : ostate) : ostate :=
+  mkOS (map (fun n => match find_node post (on_id n) with
+                      | Some n' => mkON (on_id n) (on_total n) (on_occupied n) (on_allocated n) (on_available n) (on_sched n)
+                                        (on_allocs n) (on_foreign n)
+                                        (filter (fun p => existsb (fun q => (fst q =? fst p) && (snd q =? snd p)) (on_reservations n') ||
+                                                          (* the reservation of the ask this cycle binds goes with the binding *)
+                                                          existsb (fun e => match e with ENewAlloc k a _ _ _ => (a =? fst p) && (k =? snd p) | _ => false end) evs)
+                                                (on_reservations n))
+                      | None => n end) (s_nodes pre))
+       (s_apps pre) (s_queues pre) (s_total pre) (s_nallocs pre) (s_nph pre) (s_nres pre) (s_foreign pre) (s_completed pre)
+       (s_rejected pre) (s_ugm pre).
+
+Definition c01_bind_step (deny : list (N * N)) (pre0 : ostate) (st : ostep) : list N :=
+  let pre := drop_cancelled (st_events st) pre0 (st_obs st) in
   if negb (is_sched (st_op st)) then [] else
   flat_map (fun e =>
     match e with
